@@ -27,7 +27,7 @@ func NewScenario(stream string, id int) *Scenario { return newScenario(stream, i
 // RunWith runs SSO scenarios through the handler and the Coq model; extra (if any) adds further evaluations to the same run.
 func RunWith(prop, dir, tier string, seed int64, scenarios []*Scenario, rule string, extra func(run *coqgen.Run), oracles ...func(e *Exec) (class, what string)) error {
 	run := coqgen.NewRun(dir, prop, tier, seed)
-	run.Imports = "From Saml Require Import Base.Bytes Gen.Pure Idp.Sso Corr.SsoCorr."
+	run.Imports = "From Saml Require Import Base.Bytes Gen.Pure Idp.Sso Xml.Unmarshal Corr.SsoCorr."
 	run.CaseType = "sso_case"
 	run.BadFn = "sso_bad"
 	run.PerShard = 150
